@@ -447,12 +447,12 @@ class ForceMatrix:
             non_zero_count = np.count_nonzero(self.matrix, axis=0)
             max_index = np.argmax(non_zero_count)
             b = b - value_to_fix_to * self.matrix[:, max_index]
-            self.matrix = np.delete(self.matrix, max_index, 1)
+            matrix = np.delete(self.matrix, max_index, 1)
         else:
             raise(NotImplementedError)
         
-        mprime = self.matrix.T @ self.matrix
-        b = self.matrix.T @ b
+        mprime = matrix.T @ matrix
+        b = matrix.T @ b
 
         return mprime, b, max_index
 
